@@ -12,6 +12,7 @@
      hs = "held"       an addon intercepted the flow in hook <at>; continues at label <next> on Resume
      hs = "dial"       asyncio.open_connection pending (ConnOk / ConnFail)
      hs = "wait_resp"  the request is at the server (Respond / Garbage / SEof / SErr)
+     hs = "stuck"      the held flow was reverted by Stop (it was queued once more): nobody can resume it any more
    Flow states are abstracted to <<content version, backup version>> (a fresh version per mutation); that is enough
    to predict which snapshots are equal.  Flow.backup() does nothing when a backup exists and Flow.revert() restores
    the backup: modelled as the code does it (a flow that carried a backup when queued -- edited, or replayed before --
@@ -23,7 +24,8 @@ vars == <<cfg, s, ops, mon, obs>>
 
 Replayable == {"plain", "modified", "with_body"}
 Init == /\ cfg \in {Cfgs[j] : j \in 1..Len(Cfgs)}
-        /\ s = [flows |-> <<>>,      \* [cls, cv, bv, prep]
+        /\ s = [flows |-> <<>>,      \* [cls, cv, bv, prep, resp, bresp]: resp = the flow has a response (bresp: in its backup)
+                pmap |-> <<>>,       \* <<content version, version of its prepared form>>: preparation is a function
                 nv |-> 0, queue |-> <<>>, infl |-> 0, hs |-> "idle", at |-> "", next |-> "",
                 natt |-> 0, nsock |-> 0, sock |-> FALSE]
         /\ ops = 0 /\ mon = MonInit /\ obs = <<>>
@@ -33,6 +35,15 @@ Emit(evs) == obs' = evs /\ mon' = FoldEvents(MonStep, mon, evs)
 Out(w, r) == [w EXCEPT !.out = Append(@, r)]
 Snap(fl) == fl.cv * 1000 + (IF fl.bv = fl.cv THEN 0 ELSE fl.bv)     \* image of get_state() (backup key only if it differs)
 Fresh(w, f) == [w EXCEPT !.nv = @ + 1, !.flows[f].cv = w.nv + 1, !.flows[f].prep = FALSE]
+
+\* start_replay's is_replay = "request"; response = None; error = None: a function of the content
+PrepOf(w, c) == IF \E i \in 1..Len(w.pmap) : w.pmap[i][1] = c
+                THEN w.pmap[CHOOSE i \in 1..Len(w.pmap) : w.pmap[i][1] = c][2] ELSE 0
+PrepareContent(w, f) ==
+  LET c == w.flows[f].cv p == PrepOf(w, c) IN
+  IF p # 0 THEN [w EXCEPT !.flows[f].cv = p, !.flows[f].prep = TRUE, !.flows[f].resp = FALSE]
+  ELSE [w EXCEPT !.nv = @ + 1, !.flows[f].cv = w.nv + 1, !.flows[f].prep = TRUE, !.flows[f].resp = FALSE,
+                 !.pmap = Append(@, <<c, w.nv + 1>>)]
 
 RECURSIVE Go(_, _)
 \* handle_hook(<name>): addons see the hook; an intercepting addon holds the flow until Resume
@@ -46,7 +57,10 @@ Go(w, l) ==
          ELSE Go(Fresh([w EXCEPT !.infl = Head(w.queue), !.queue = Tail(@)], Head(w.queue)), "rh")
     [] l = "rh" -> Hook(w, "requestheaders", "rq")
     [] l = "rq" -> Hook(w, "request", "connect")
-    [] l = "connect" -> Out([w EXCEPT !.hs = "dial", !.natt = @ + 1], [k |-> "dial", att |-> w.natt])
+    [] l = "connect" ->         \* a flow that already has a response (an earlier replay of the same queued object, or a
+                                \* revert while it was held) is answered from it: no request is sent
+         IF w.flows[w.infl].resp THEN Go(w, "resph") ELSE
+         Out([w EXCEPT !.hs = "dial", !.natt = @ + 1], [k |-> "dial", att |-> w.natt])
     [] l = "resph" -> Hook(w, "responseheaders", "resp")
     [] l = "resp" -> Hook(w, "response", "close")
     [] l = "err_open" ->        \* protocol error: the layer starts the error hook and closes the server connection itself
@@ -54,7 +68,9 @@ Go(w, l) ==
                        [k |-> "sock_close", s |-> w.nsock - 1]) IN
          IF "error" \in w.cfg.icpt THEN [w1 EXCEPT !.hs = "held", !.at = "error", !.next = "finish"] ELSE Go(w1, "finish")
     [] l = "err_closed" -> Hook(w, "error", "finish")   \* connect failed / peer closed: no socket any more
-    [] l = "close" -> Go(Out([w EXCEPT !.sock = FALSE], [k |-> "sock_close", s |-> w.nsock - 1]), "finish")
+    [] l = "close" -> IF w.sock THEN Go(Out([w EXCEPT !.sock = FALSE], [k |-> "sock_close", s |-> w.nsock - 1]), "finish_resp")
+                      ELSE Go(w, "finish_resp")
+    [] l = "finish_resp" -> Go([Fresh(w, w.infl) EXCEPT !.flows[w.infl].resp = TRUE], "next")
     [] l = "finish" -> Go(Fresh(w, w.infl), "next")
 
 W0 == s @@ [out |-> <<>>, cfg |-> cfg]
@@ -71,13 +87,13 @@ Prepare(w, w0, batch, acc) ==      \* acc = [ids, added, pre, bk]
            \* an edited flow carries a backup (version nv+1) of its original content and has content nv+2
            w1 == IF ~isnew THEN w
                  ELSE IF e.cls = "modified"
-                   THEN [w EXCEPT !.flows = Append(@, [cls |-> e.cls, cv |-> w.nv + 2, bv |-> w.nv + 1, prep |-> FALSE]), !.nv = @ + 2]
-                   ELSE [w EXCEPT !.flows = Append(@, [cls |-> e.cls, cv |-> w.nv + 1, bv |-> 0, prep |-> FALSE]), !.nv = @ + 1]
+                   THEN [w EXCEPT !.flows = Append(@, [cls |-> e.cls, cv |-> w.nv + 2, bv |-> w.nv + 1, prep |-> FALSE, resp |-> TRUE, bresp |-> TRUE]), !.nv = @ + 2]
+                   ELSE [w EXCEPT !.flows = Append(@, [cls |-> e.cls, cv |-> w.nv + 1, bv |-> 0, prep |-> FALSE, resp |-> TRUE, bresp |-> FALSE]), !.nv = @ + 1]
            fl == w1.flows[f]
            okay == fl.cls \in Replayable /\ f # w1.infl
            w2 == IF ~okay THEN w1
-                 ELSE LET wb == IF fl.bv = 0 THEN [w1 EXCEPT !.flows[f].bv = fl.cv] ELSE w1       \* backup()
-                          wc == IF fl.prep THEN wb ELSE [Fresh(wb, f) EXCEPT !.flows[f].prep = TRUE]  \* is_replay, response, error
+                 ELSE LET wb == IF fl.bv = 0 THEN [w1 EXCEPT !.flows[f].bv = fl.cv, !.flows[f].bresp = fl.resp] ELSE w1   \* backup()
+                          wc == IF fl.prep THEN wb ELSE PrepareContent(wb, f)
                       IN [wc EXCEPT !.queue = Append(@, f)]
        IN Prepare(w2, w0, Tail(batch),
                   [ids |-> Append(acc.ids, f), cls |-> Append(acc.cls, fl.cls),
@@ -101,10 +117,18 @@ RECURSIVE Revert(_, _)
 Revert(w, q) ==
   IF q = <<>> THEN w
   ELSE LET f == Head(q) fl == w.flows[f] IN
-       Revert(IF fl.bv # 0 THEN [w EXCEPT !.flows[f].cv = fl.bv, !.flows[f].bv = 0, !.flows[f].prep = FALSE] ELSE w, Tail(q))
+       Revert(IF fl.bv # 0 THEN [w EXCEPT !.flows[f].cv = fl.bv, !.flows[f].bv = 0, !.flows[f].prep = FALSE, !.flows[f].resp = fl.bresp]
+              ELSE w, Tail(q))
+\* revert() of the flow in flight while its server connection is open: Flow.set_state assigns server_conn.address,
+\* which connection.Server.__setattr__ refuses on an open connection -> stop_replay raises RuntimeError half-way
+StopRaises == s.sock /\ \E i \in 1..Len(s.queue) : s.queue[i] = s.infl
 Stop ==
   /\ Env /\ "stop" \in cfg.feat
-  /\ \E w \in {Revert([W0 EXCEPT !.queue = <<>>], s.queue)} :
+  /\ IF StopRaises
+     THEN Commit(Out([W0 EXCEPT !.queue = <<>>], [k |-> "raised", op |-> "stop", exc |-> "RuntimeError"]))
+     \* reverting the held flow in flight clears flow.intercepted without releasing wait_for_resume: it stays stuck
+     ELSE \E w \in {Revert([W0 EXCEPT !.queue = <<>>, !.hs = IF s.hs = "held" /\ \E i \in 1..Len(s.queue) : s.queue[i] = s.infl
+                                                            THEN "stuck" ELSE s.hs], s.queue)} :
        Commit(Out(w, [k |-> "stop", cleared |-> s.queue, post |-> [i \in 1..Len(s.queue) |-> Snap(w.flows[s.queue[i]])],
                       left |-> <<>>]))
 
@@ -125,7 +149,7 @@ SEof == /\ Env /\ s.hs = "wait_resp" /\ "seof" \in cfg.feat
 SErr == /\ Env /\ s.hs = "wait_resp" /\ "serr" \in cfg.feat
         /\ \E w \in {Go(Out([W0 EXCEPT !.hs = "run", !.sock = FALSE], [k |-> "sock_close", s |-> s.nsock - 1]), "err_closed")} : Commit(w)
 \* everything queued has been replayed
-End == /\ Live /\ s.hs = "idle" /\ ops < 1000
+End == /\ Live /\ s.hs \in {"idle", "stuck"} /\ ops < 1000
        /\ ops' = 1000 /\ UNCHANGED <<cfg, s>> /\ Emit(<<[k |-> "end"]>>)
 
 Next == \/ \E b \in 1..8 : Submit(b)
